@@ -15,6 +15,7 @@ import SwimVerif.Proofs.ReconStyles
 import SwimVerif.Proofs.ReconInc
 import SwimVerif.Proofs.ReconIncCoupled
 import SwimVerif.Proofs.ReconIncSeq
+import SwimVerif.Proofs.ReconIncBytes
 
 set_option linter.unusedVariables false
 namespace SwimVerif.Recon
@@ -168,8 +169,8 @@ Model: `Model/ReconInc.lean` — `RecognizerDecoder::{decode, decode_eof}` and `
 pushdown automaton and the streaming / complete tokens transcribed in `Model/ReconEq.lean` (C15), tied to the real
 decoders by the `chunksm` engine on every single cut (bytes, incl. inside multi-byte characters).  The theorems below
 are at *character* granularity (a chunking = a list of character lists); at byte granularity the decoder works on the
-longest valid UTF-8 prefix of its buffer and leaves an incomplete tail in it (`readUtf8`, executed and compared, not
-part of the statements). -/
+longest valid UTF-8 prefix of its buffer and leaves an incomplete tail in it (`readUtf8`, executed and compared; the
+byte-level statements are `C09_read_utf8_on_prefix` and `C09_incremental_eq_oneshot_bytes`). -/
 
 open SwimVerif.ReconInc SwimVerif.ReconEq in
 /-- **Token level.**  Every streaming token parser's verdict on the text seen so far is final: if the four primitive
@@ -214,19 +215,60 @@ fresh `RecognizerDecoder` (`decode` per chunk on buffer ++ chunk) and then `deco
 `parse_recognize::<Value>` yields on the whole text — the same value, or an error (`cls`: the decoder's `Ok(None)` at
 the end of the input counts as the error it stands for).  Chunks are lists of characters: `read_utf8`'s splitting of a
 byte buffer at an incomplete trailing sequence is part of the executable model (and compared with the real decoder on
-every byte cut by the `chunksm` engine) but not of this statement, see `C09_incremental_eq_oneshot_bytes_open`. -/
+every byte cut by the `chunksm` engine) but not of this statement; for bytes see `C09_incremental_eq_oneshot_bytes`. -/
 theorem C09_incremental_eq_oneshot (c : List Char) (cs : List (List Char)) :
     cls (rawRun {} [] (c :: cs)) = cls (parseOne (c :: cs).flatten) :=
   rawRun_eq_parseOne lexPrimM_stable flushCoupled c cs
 
+/-! ### bytes: `read_utf8`
+
+`charsOfBytes` / `bytesOfChars` are the hand-written structural UTF-8 decoder / encoder of `Model/Utf8.lean` (lead byte
+by lead byte, with `std::str::from_utf8`'s rejections: overlong forms, surrogates, above U+10FFFF), compared with the
+real `read_utf8` on every byte cut by the `chunksm` engine. -/
+
 open SwimVerif.ReconInc in
-/-- Open: the same over byte chunks that may cut a multi-byte character.  The exact obligation is a fact about
-`read_utf8` alone: on every prefix of the UTF-8 encoding of a text it returns the characters whose encoding is complete
-and leaves the (at most 3) bytes of the cut one, and `utf8LenL` is the encoded length — with it `rawRunB` on byte chunks
-is `rawRun` on the corresponding character chunks.  (Not attempted: `charsOfBytes` is core's `String.fromUTF8?`.) -/
-def C09_incremental_eq_oneshot_bytes_open : Prop :=
-  ∀ (T : List Char) (bcs : List (List Nat)), bcs ≠ [] → bcs.flatten = bytesOfChars T →
-    cls (rawRunB {} [] bcs) = cls (parseOne T)
+/-- **The model's UTF-8 decoder inverts its encoder**: every text is read back from its encoding. -/
+theorem C09_utf8_decode_encode (cs : List Char) : charsOfBytes (bytesOfChars cs) = some cs :=
+  SwimVerif.Utf8.decode_encode cs
+
+example : bytesOfChars ['a', 'é', '€', Char.ofNat 0x1F600] = [0x61, 0xC3, 0xA9, 0xE2, 0x82, 0xAC, 0xF0, 0x9F, 0x98, 0x80] := by
+  decide
+
+open SwimVerif.ReconInc in
+/-- **`read_utf8` on a prefix of valid UTF-8**: on every prefix `p` of the encoding of a text `T` — wherever the cut
+falls, also inside a multi-byte character — `read_utf8` succeeds, returns exactly the characters `C` whose encoding is
+complete, and what it leaves in the buffer (`t`) is at most 3 bytes; `utf8LenL`, by which the decoder advances the
+buffer, is the encoded length. -/
+theorem C09_read_utf8_on_prefix (T : List Char) (p q : List Nat) (h : p ++ q = bytesOfChars T) :
+    ∃ C R t, T = C ++ R ∧ p = bytesOfChars C ++ t ∧ t.length ≤ 3 ∧ readUtf8 p = some C ∧
+      utf8LenL C = (bytesOfChars C).length :=
+  let ⟨C, R, t, h1, h2, h3, h4⟩ := readUtf8_prefix T p q h
+  ⟨C, R, t, h1, h2, h3, h4, (encode_length C).symm⟩
+
+/-- `a€` cut after the second byte of `€`: `read_utf8` gives `a`, two bytes stay. -/
+example : [0x61, 0xE2, 0x82] ++ [0xAC] = bytesOfChars ['a', '€'] := by decide
+
+open SwimVerif.ReconInc in
+/-- **The text a `decode` call leaves unconsumed is a suffix of the text it was given** (what `buf.advance(offset)`
+relies on): all token parsers and all automaton steps return a tail of their input. -/
+theorem C09_decode_rest_is_suffix (d : Raw) (avail : List Char) : (d.decode avail).2.1 <:+ avail :=
+  Raw.decode_suffix d avail
+
+open SwimVerif.ReconInc in
+/-- **Incremental = one-shot, byte level**: for every text `T` and every way of cutting its UTF-8 encoding into byte
+chunks — also inside multi-byte characters, also with empty chunks — feeding the chunks to a fresh `RecognizerDecoder`
+(`decode` per chunk, through `read_utf8`) and then `decode_eof` yields exactly what the one-shot
+`parse_recognize::<Value>` yields on `T`.  (Proof: by `C09_read_utf8_on_prefix` and `C09_decode_rest_is_suffix` the
+run on bytes is the run on some chunking of `T` into characters — a byte chunk that completes no character is an empty
+character chunk — and `C09_incremental_eq_oneshot` applies.) -/
+theorem C09_incremental_eq_oneshot_bytes (T : List Char) (bcs : List (List Nat)) (hne : bcs ≠ [])
+    (hfl : bcs.flatten = bytesOfChars T) : cls (rawRunB {} [] bcs) = cls (parseOne T) :=
+  rawRunB_eq_parseOne lexPrimM_stable flushCoupled T bcs hne hfl
+
+/-- Non-vacuity: `{é:"€"}` cut inside `é`, between characters, with an empty chunk, and twice inside `€`. -/
+example : ([[0x7B, 0xC3], [0xA9, 0x3A, 0x22], [], [0xE2], [0x82], [0xAC, 0x22, 0x7D]] : List (List Nat)) ≠ [] ∧
+    ([[0x7B, 0xC3], [0xA9, 0x3A, 0x22], [], [0xE2], [0x82], [0xAC, 0x22, 0x7D]] : List (List Nat)).flatten =
+      bytesOfChars ['{', 'é', ':', '"', '€', '"', '}'] := by decide
 
 open SwimVerif.ReconInc in
 /-- **The decoder recovers after an error** (and after anything else): when a document is finished — a value, an
